@@ -78,7 +78,7 @@ def confirm(prop, k, feats, rnd=1, offset=None):
     return 0
 
 
-SCRATCH = '/tmp/seedrun'
+SCRATCH = os.environ.get('SEEDRUN_DIR', '/tmp/seedrun')
 
 
 def run(sid, props):
